@@ -1224,6 +1224,8 @@ def check_vcf_dataset(chk, ctx, ds):
         if bad:
             chk.fail('make_data_dict_vcf:entries', 'the data dictionary is not the matrix: ' + bad, inp)
         chk.stat('vcf:fmt=' + ds['fmt']); chk.stat('vcf:lines_kept=%s' % ('all' if len(od) == len(ds['sites']) else 'some' if od else 'none'))
+        nrep = sum(1 for s in ds['sites'] if is_snp_line(s, filt)) - len(od)
+        chk.stat('vcf:repeated-keys=%s' % ('none' if nrep == 0 else 'some'))            # SNP lines overwritten by a later line with the same CHROM_POS
         # ---- K: dictionary
         model_entries = None
         if have_driver(ctx):
@@ -1549,6 +1551,10 @@ def check_full_dataset(chk, ctx, ds):
                     chk.fail('stats:pi-projected', 'pi of the spectrum projected to %d of %d chromosomes %.12g != %.12g counted on the full matrix' % (m, n, pim, float(ref['pi'])), inp)
             except Exception as e:
                 chk.fail('stats:pi-projected:raises:%s' % type(e).__name__, 'pi on a projected spectrum raises %r' % (e,), inp)
+            check_projected_stats(chk, ctx, ds, dd, p, cols, n, m, ref, dict(inp, at=dict(stage='full', pop=p, project_to=m)))
+            if n > 2:
+                m2 = 2 + (ds['params']['subseed'] + 3 * pi_) % (n - 2)             # a proper projection (m < n)
+                check_projected_stats(chk, ctx, ds, dd, p, cols, n, m2, ref, dict(inp, at=dict(stage='full', pop=p, project_to=m2)))
             if have_driver(ctx):
                 cw = ';'.join(''.join(map(str, c)) for c in cols) if cols else '-'
                 out = ask(ctx, 'direct1 %d %s' % (n, cw))
@@ -1612,6 +1618,203 @@ def check_full_dataset(chk, ctx, ds):
         check_pipeline(chk, ctx, ds, vcf, pop, pops, Codes())
     finally:
         shutil.rmtree(d, ignore_errors=True)
+
+# ------------------------------------------------------------------------------------------------ round 5 extension: polarisation table, fold mask, projected statistics
+POL_REP = {0: '-', 1: 'A', 2: 'C', 3: 'G'}
+POL_STRINGS = ['-', 'A', 'C', 'G', 'T', 'N', 'a', 'AT', 'AC', '', '.', 'n', 'ACGT', '--']
+
+def pol_expected(og, a1, a2):
+    """the statement: polarised iff an outgroup allele is recorded, is not '-' and is one of the two segregating alleles; the derived
+    allele is then the other one; otherwise the second allele is the one counted.  Returns (polarised, 1 or 2)"""
+    polz = og is not None and og != '-' and og in (a1, a2)
+    return polz, (2 if (not polz or a1 == og) else 1)
+
+def pol_class(og, a1, a2):
+    return 'missing' if og is None else 'dash' if og == '-' else 'allele1' if og == a1 else 'allele2' if og == a2 else 'third'
+
+def pol_impl(dadi, og, a1, a2):
+    """what the real count_data_dict / from_data_dict make of a single SNP with these allele strings: (polarised, derived 1/2, totals)"""
+    v = dict(segregating=(a1, a2), calls={'p': (3, 5)})
+    if og is not None: v['outgroup_allele'] = og
+    dd = {'c_7': v}
+    cd = dict(dadi.Misc.count_data_dict(dd, ['p']))
+    if len(cd) != 1: return None
+    (succ, der, polz), cnt = list(cd.items())[0]
+    d = 2 if tuple(der) == (5,) else 1 if tuple(der) == (3,) else None
+    tp = float(np.sum(dadi.Spectrum.from_data_dict(dd, ['p'], [4], mask_corners=False, polarized=True).data))
+    tu = float(np.sum(dadi.Spectrum.from_data_dict(dd, ['p'], [4], mask_corners=False, polarized=False).data))
+    return bool(polz), d, tp, tu
+
+def check_pol_table(chk, ctx, rng, count):
+    """C13_polarised_table on the real code: the three-way test for a usable ancestral allele, pattern by pattern (every equality pattern
+    among '-', allele1, allele2, outgroup allele / no key: the 80 representatives the generated table is built from) and on other strings
+    (multi-character, lower case, empty) — L3 against the statement, K against the generated table (`poltable`) and the model's
+    decision under the canonical key (`polrow`)"""
+    dadi = ctx['dadi']
+    cases = [(None if og is None else POL_REP[og], POL_REP[a1], POL_REP[a2], (og, a1, a2))
+             for og in (None, 0, 1, 2, 3) for a1 in range(4) for a2 in range(4)]
+    for it in range(count):
+        a1, a2 = [str(x) for x in rng.choice(POL_STRINGS, size=2)]
+        u = rng.random()
+        og = None if u < 0.15 else a1 if u < 0.4 else a2 if u < 0.65 else str(rng.choice(POL_STRINGS))
+        cases.append((og, a1, a2, None))
+    table = None
+    if have_driver(ctx):
+        out = ask(ctx, 'poltable')
+        if out.startswith('ok '):
+            table = {}
+            for t in out[3:].split(';'):
+                o, x, y, pz, dr = t.split(':')
+                table[(None if o == '-' else int(o), int(x), int(y))] = (pz == '1', None if dr == '-' else int(dr))
+        else:
+            chk.k_bad('poltable', dict(kind='poltable'), None, out, None)
+    for og, a1, a2, rep in cases:
+        inp = dict(kind='poltable', og=og, a1=a1, a2=a2)
+        cls = pol_class(og, a1, a2)
+        chk.l3(('poltable', cls, a1 == a2, a1 == '-', a2 == '-', rep is not None))
+        chk.stat('poltable:' + cls)
+        try:
+            got = pol_impl(dadi, og, a1, a2)
+        except Exception as e:
+            chk.fail('count_data_dict:polarisation:%s:raises:%s' % (cls, type(e).__name__), 'count_data_dict / from_data_dict raise %r on a SNP with segregating=(%r, %r), outgroup_allele=%r' % (e, a1, a2, og), inp)
+            continue
+        polz, der = pol_expected(og, a1, a2)
+        if got is None or got[0] != polz or got[1] != der:
+            chk.fail('count_data_dict:polarisation:%s' % cls, 'a SNP with segregating=(%r, %r) and outgroup_allele=%r (%s) is counted as (polarised, derived allele) = %r; the usable-ancestral-allele test says (%s, %d): polarised iff the outgroup allele is recorded, is not \'-\' and is one of the two segregating alleles'
+                     % (a1, a2, og, cls, None if got is None else got[:2], polz, der), inp)
+        elif abs(got[2] - (1.0 if polz else 0.0)) > 1e-9 or abs(got[3] - 1.0) > 1e-9:
+            chk.fail('from_data_dict:polarisation:%s' % cls, 'a SNP with outgroup_allele=%r (%s), segregating=(%r, %r), 8 calls contributes %.6g to the polarised and %.6g to the folded spectrum at projection 4; expected %d and 1 (no usable ancestral allele => unpolarised only)'
+                     % (og, cls, a1, a2, got[2], got[3], 1 if polz else 0), inp)
+        if have_driver(ctx) and got is not None:
+            if rep is not None and table is not None:
+                if table.get(rep) == (got[0], got[1]): chk.k_ok('poltable')
+                else: chk.k_bad('poltable', inp, (got[0], got[1]), table.get(rep), None)
+            out = ask(ctx, 'polrow %s %d %d' % ('-' if og is None else allele_code(og), allele_code(a1), allele_code(a2)))
+            mod = None
+            if out.startswith('ok '):
+                a, b = out[3:].split(' ')
+                mod = (a == '1', None if b == '-' else int(b))
+            if mod == (got[0], got[1]): chk.k_ok('polrow')
+            else: chk.k_bad('polrow', inp, (got[0], got[1]), out, None)
+
+def replay_pol(chk, ctx, inp):
+    dadi = ctx['dadi']; og, a1, a2 = inp.get('og'), inp['a1'], inp['a2']
+    cls = pol_class(og, a1, a2)
+    chk.l3(('poltable', cls))
+    try:
+        got = pol_impl(dadi, og, a1, a2)
+    except Exception as e:
+        chk.fail('count_data_dict:polarisation:%s:raises:%s' % (cls, type(e).__name__), 'raises %r' % (e,), inp); return
+    polz, der = pol_expected(og, a1, a2)
+    if got is None or got[0] != polz or got[1] != der:
+        chk.fail('count_data_dict:polarisation:%s' % cls, 'segregating=(%r, %r), outgroup_allele=%r: counted as %r, expected (%s, %d)' % (a1, a2, og, None if got is None else got[:2], polz, der), inp)
+    elif abs(got[2] - (1.0 if polz else 0.0)) > 1e-9 or abs(got[3] - 1.0) > 1e-9:
+        chk.fail('from_data_dict:polarisation:%s' % cls, 'contributes %.6g (polarised) / %.6g (folded)' % (got[2], got[3]), inp)
+
+def fold_mask_expected(proj, m):
+    """mask of fs.fold() for a spectrum with mask m: an entry is masked iff it or its mirror image was, or it lies in the folded-out half,
+    or it is one of the two corners (fold builds its result with the constructor default mask_corners=True)"""
+    shape = tuple(p + 1 for p in proj); T = sum(proj)
+    out = np.zeros(shape, dtype=bool)
+    for idx in itertools.product(*[range(x) for x in shape]):
+        mir = tuple(p - j for p, j in zip(proj, idx))
+        corner = all(j == 0 for j in idx) or idx == tuple(proj)
+        out[idx] = bool(m[idx]) or bool(m[mir]) or sum(idx) > T // 2 or corner
+    return out
+
+def fold_mask_case(chk, ctx, proj, m, inp):
+    dadi = ctx['dadi']
+    shape = tuple(p + 1 for p in proj)
+    try:
+        with warnings.catch_warnings():
+            warnings.simplefilter('ignore')
+            fs = dadi.Spectrum(np.ones(shape), mask=m.copy(), mask_corners=False)
+            got = np.asarray(np.ma.getmaskarray(fs.fold()))
+            kept = np.array_equal(np.ma.getmaskarray(fs), m)
+    except Exception as e:
+        chk.fail('fold:mask:raises:%s' % type(e).__name__, 'Spectrum(mask=…).fold() raises %r' % (e,), inp); return
+    chk.l3(('foldmask', len(proj), bool(m.any()), sum(proj) % 2))
+    exp = fold_mask_expected(proj, m)
+    if not kept or not np.array_equal(got, exp):
+        chk.fail('fold:mask', 'mask of fs.fold() for a spectrum of sample sizes %s with mask %s is not (mask | mirrored mask | folded-out half | corners): differs at %s'
+                 % (list(proj), m.astype(int).tolist(), [tuple(int(x) for x in c) for c in np.argwhere(got != exp)[:4]]), inp)
+    if have_driver(ctx):
+        out = ask(ctx, 'foldmask %s %s' % (','.join(map(str, proj)), common.fmt_nd(m.astype(int))))
+        if out.startswith('ok '):
+            mm = nd_float(out[3:].strip()).astype(bool)
+            if mm.shape == got.shape and np.array_equal(mm, got): chk.k_ok('foldmask')
+            else: chk.k_bad('foldmask', inp, got.astype(int).tolist(), mm.astype(int).tolist(), None)
+        else:
+            chk.k_bad('foldmask', inp, got.astype(int).tolist(), out, None)
+
+def check_fold_mask(chk, ctx, rng, count):
+    """C13_fold_mask / C13_mask: the mask Spectrum.fold computes, for arbitrary input masks (K `foldmask`, L3 the closed form)"""
+    for it in range(count):
+        d = int(rng.choice([1, 1, 2, 2, 3]))
+        proj = [int(rng.integers(1, 6 if d < 3 else 4)) for _ in range(d)]
+        shape = tuple(p + 1 for p in proj)
+        dens = float(rng.choice([0.0, 0.1, 0.3, 0.6]))
+        m = rng.random(shape) < dens
+        fold_mask_case(chk, ctx, proj, m, dict(kind='foldmask', proj=proj, mask=m.astype(int).tolist()))
+
+def proj_stats_oracle(cols, n, m):
+    """statistics of the spectrum of the columns `cols` (n chromosomes each) projected to m, as expectations over drawing m of the n
+    chromosomes of every column (hypergeometric probabilities, exact)"""
+    f = [sum(hyp(m, n, sum(c), j) for c in cols) for j in range(m + 1)]
+    S = sum(f[1:m]) if m >= 1 else Fraction(0)
+    a1 = sum(Fraction(1, k) for k in range(1, m)); a2 = sum(Fraction(1, k * k) for k in range(1, m))
+    W = S / a1
+    tl = sum(j * f[j] for j in range(1, m)) / (m - 1)
+    pi = Fraction(2 * m, m - 1) * sum(f[j] * Fraction(j, m) * (1 - Fraction(j, m)) for j in range(m + 1))
+    b1 = Fraction(m + 1, 3 * (m - 1)); b2 = Fraction(2 * (m * m + m + 3), 9 * m * (m - 1))
+    c1 = b1 - 1 / a1; c2 = b2 - Fraction(m + 2, 1) / (a1 * m) + a2 / a1 ** 2
+    var = c1 / a1 * S + c2 / (a1 ** 2 + a2) * S * (S - 1)
+    # the same quantities column by column, as the theorems state them (C13_S_projection, C13_thetaL_projection)
+    S2 = sum(1 - hyp(m, n, sum(c), 0) - hyp(m, n, sum(c), m) for c in cols)
+    tl2 = sum(Fraction(m * sum(c), n) - m * hyp(m, n, sum(c), m) for c in cols) / (m - 1)
+    return dict(S=S, W=W, thetaL=tl, pi=pi, var=var, S_cols=S2, thetaL_cols=tl2)
+
+def check_projected_stats(chk, ctx, ds, dd, p, cols, n, m, ref, inp):
+    """what survives projection and what does not (C13_*_projection): pi of the projected spectrum is the full-data pi; S, Watterson's
+    theta, theta_L and Tajima's D are those of the expected sub-sample (S never above the full-data S)"""
+    dadi = ctx['dadi']
+    if m < 2 or m > n: return
+    o = proj_stats_oracle(cols, n, m)
+    sc = max(float(ref['S']), 1.0)
+    try:
+        fs = dadi.Spectrum.from_data_dict(dd, [p], [m], mask_corners=bool(m % 2), polarized=True)
+        got = dict(S=float(fs.S()), pi=float(fs.pi()), W=float(fs.Watterson_theta()), thetaL=float(fs.theta_L()))
+        with np.errstate(all='ignore'):
+            D = float(fs.Tajima_D())
+    except Exception as e:
+        chk.fail('stats:projected:raises:%s' % type(e).__name__, 'statistics of a projected spectrum raise %r' % (e,), inp); return
+    chk.l3(('stats-projected', n, m == n, ref['S'] > 0, o['S'] < ref['S']))
+    chk.stat('projected:S=%s' % ('same' if o['S'] == ref['S'] else 'smaller'))
+    if o['S'] != o['S_cols'] or o['thetaL'] != o['thetaL_cols'] or o['S'] > ref['S'] or o['pi'] != ref['pi']:
+        chk.fail('stats:projected:oracle', 'the column-by-column forms (1 - w0 - wm; m i/n - m wm) disagree with the projected spectrum, or S grew, or pi changed: %r vs full %r' % (o, ref), inp)
+    for k, want in (('S', o['S']), ('W', o['W']), ('thetaL', o['thetaL']), ('pi', ref['pi'])):
+        if not scalar_close(got[k], want, scale=sc):
+            chk.fail('stats:projected:%s' % k, '%s of the spectrum projected from %d to %d chromosomes is %.12g; the expected sub-sample of the genotype matrix gives %.12g (full data: %.12g)'
+                     % (k, n, m, got[k], float(want), float(ref[k])), inp)
+    sq = None
+    if o['var'] > 0:
+        sq = math.sqrt(float(o['var']))
+        Dref = float(ref['pi'] - o['W']) / sq
+        if not scalar_close(D, Dref, rtol=1e-8, scale=abs(float(ref['pi']) + float(o['W'])) / sq):
+            chk.fail('stats:projected:Tajima_D', "Tajima's D of the spectrum projected from %d to %d is %.12g; full-data pi and the projected S give %.12g" % (n, m, D, Dref), inp)
+    if have_driver(ctx):
+        cw = ';'.join(''.join(map(str, c)) for c in cols) if cols else '-'
+        out = ask(ctx, 'projstats %s %d %d %s' % (rat(sq if sq is not None else 1.0), m, n, cw))
+        if out.startswith('ok '):
+            a, b = out[3:].split(' | ')
+            da = [Fraction(t) for t in a.split(' ')]; db = [Fraction(t) for t in b.split(' ')]
+            exp = [o['S'], o['W'], o['thetaL'], o['var']]
+            if da[:4] == db[:4] == exp and da[4] == db[4] and (sq is None or scalar_close(D, da[4], rtol=1e-8, scale=abs(float(ref['pi']) + float(o['W'])) / sq)):
+                chk.k_ok('projstats')
+            else:
+                kbad(chk, 'projstats', ds, exp + [D], dict(direct=da, spectrum=db), None, inp.get('at'))
+        else:
+            kbad(chk, 'projstats', ds, None, out, None, inp.get('at'))
 
 # ------------------------------------------------------------------------------------------------ small ties
 def check_weights(chk, ctx, rng, count):
@@ -1730,6 +1933,9 @@ def run(chk, ctx):
         out = ask(ctx, 'shapes13')
         if out.strip() == 'ok 1 1 1 1 1 1 1 1 1 1 1': chk.k_ok('shapes13')
         else: chk.k_bad('shapes13', dict(kind='shapes'), None, out, None)
+    rng2 = common.Rng(ctx['seed'], 'C13-ext')                 # own stream: the data sets below keep their seeds
+    check_pol_table(chk, ctx, rng2, 40 if tier == 'quick' else 400)
+    check_fold_mask(chk, ctx, rng2, 40 if tier == 'quick' else 400)
     for it in range(nv):
         check_dataset(chk, ctx, gen_dataset(rng, tier, 'vcf'), rng)
     for it in range(ns):
@@ -1756,6 +1962,10 @@ def replay(chk, ctx, data):
         if not close(row, [float(x) for x in ref])[0]:
             chk.fail('cached_projection:row', '_cached_projection(%d,%d,%d) is not the hypergeometric row' % (m, n, i), inp)
         return
+    if kind == 'poltable':
+        replay_pol(chk, ctx, inp); return
+    if kind == 'foldmask':
+        fold_mask_case(chk, ctx, [int(x) for x in inp['proj']], np.array(inp['mask'], dtype=bool), inp); return
     ds = inp.get('dataset')
     if not isinstance(ds, dict) or 'kind' not in ds:
         run(chk, ctx); return
